@@ -26,6 +26,7 @@ theorem step_seen (s : State) (op : Op) (h : op.isDrop = false) : (step s op).se
       have : s.seen.timers[i]? = some τ := hτ
       rw [step_abort_some hτ, step_abort_some this]; split <;> rfl
   | create k p => rfl
+  | createX k p => rfl
   | tick d => rfl
   | stop => rfl
   | kill => rfl
@@ -86,6 +87,7 @@ theorem Same.step {s s' : State} (h : Same s s') (op : Op) : Same (step s op) (s
       · exact ⟨h1, h2, by simp only [h1, h3]⟩
       · exact ⟨h1, h2, h3⟩
   | create k p => exact ⟨h1, h2, by simp only [Timers.step, h1, h3]⟩
+  | createX k p => exact ⟨h1, h2, by simp only [Timers.step, h1, h3]⟩
   | tick d => exact ⟨by simp only [Timers.step, h1], h2, h3⟩
   | stop => exact ⟨h1, by simp only [Timers.step, h2], h3⟩
   | kill => exact ⟨h1, by simp only [Timers.step, h2], h3⟩
@@ -146,6 +148,7 @@ theorem mrun_undrop (ms : List MOp) : ∀ {s s' : State}, Same s s' → Same (mr
       apply Same.steps
       exact (h.step (.tick d)).drop_left i
     | create k p => exact hgen _ rfl
+    | createX k p => exact hgen _ rfl
     | adv d => exact hgen _ rfl
     | advAbort d i => exact hgen _ rfl
     | advStop d => exact hgen _ rfl
